@@ -27,6 +27,8 @@ def render(rdflib) -> str:
     cls = re.compile("[" + ntriples.uriref[k + 2:e] + "]") if 0 <= k < e else re.compile(r'[\s"<>]')
     refused = [i for i in range(0x110000) if not (0xD800 <= i <= 0xDFFF) and cls.match(chr(i))]
     space = [i for i in refused if chr(i) not in '"<>']
+    # readline uses str.isspace() for the blank remainder at end of file: must be the same class
+    assert space == [i for i in range(0x110000) if chr(i).isspace()], "str.isspace and \\s differ"
     out = []
     out.append("Definition py_space : list N := [" + "; ".join(f"{i}%N" for i in space) + "].")
     out.append("Definition uriref_extra_refused : list N := ["
